@@ -189,6 +189,12 @@ def run(chk: Check, model):
     chk.add("C08.writers", "_run_generation: one replace_buffer per generation", len(rb) == 1 and not rb[0].loops and rb[0].recv == S("graph_state"),
             f"{len(rb)} replace_buffer call(s) in _run_generation; expected one, after the slot loop, on the generation's input state", chk.loc(f_gen))
 
+    rule_sizes(chk, model, "C08.sizes")
+
+
+def rule_sizes(chk: Check, model, rid: str):
+    """Ring sizes: minimum per producer aggregated over all readers, admissibility of user sizes, allocation and default content
+    (shared with C01: a ring that is too small replays a different payload than the recorded one)."""
     # ---------------------------------------------------------------- sizes
     f_bs = model.func("base.Timings.get_buffer_sizes")
     chk.used(f_bs.qualname)
@@ -212,7 +218,7 @@ def run(chk: Check, model):
                                                      and n.func.value.id == nm and n.func.attr in ("update", "pop", "clear", "setdefault"))
                   or (isinstance(n, ast.Subscript) and isinstance(n.ctx, ast.Store) and isinstance(n.value, ast.Name) and n.value.id == nm)]
         ok = ok and not others
-    chk.add("C08.sizes", "minimum sizes aggregate over every reader of a producer", bool(ok), "get_buffer_sizes must append each (consumer, input) requirement s.max() + 1 to the "
+    chk.add(rid, "minimum sizes aggregate over every reader of a producer", bool(ok), "get_buffer_sizes must append each (consumer, input) requirement s.max() + 1 to the "
             "producer's list (the allocated size is the max over all of them); a replaced entry forgets the other consumers", chk.loc(f_bs))
     f_init = model.func("graph.Graph.__init__")
     chk.used(f_init.qualname)
@@ -238,15 +244,15 @@ def run(chk: Check, model):
                 except order.NotComparisonOnly as ex:
                     detail = f"admissibility test is not comparison-only: {ex}"
         ok = ok and bool(a.loops) and flow_guard_is_user_sizes(a)
-    chk.add("C08.sizes", "user size >= computed minimum", ok, detail, chk.loc(f_init, asserts[0].node) if asserts else chk.loc(f_init))
+    chk.add(rid, "user size >= computed minimum", ok, detail, chk.loc(f_init, asserts[0].node) if asserts else chk.loc(f_init))
     mins = [e for e in r.events if e.kind == "call" and e.name.endswith(".get_buffer_sizes")]
-    chk.add("C08.sizes", "minimum sizes come from the timings", len(mins) == 1 and mins[0].recv == r.attr("self", "_timings"), "the minimum sizes must be self._timings.get_buffer_sizes()", chk.loc(f_init))
+    chk.add(rid, "minimum sizes come from the timings", len(mins) == 1 and mins[0].recv == r.attr("self", "_timings"), "the minimum sizes must be self._timings.get_buffer_sizes()", chk.loc(f_init))
     f_gi = model.func("graph.Graph.init")
     ev = SymEval(model)
     r = ev.run_function(f_gi)
     gob = [e for e in r.events if e.kind == "call" and e.name.endswith(".get_output_buffer")]
     ok = len(gob) == 1 and len(gob[0].args) >= 3 and gob[0].args[1] == S("self._buffer_sizes") and gob[0].args[2] == S("self._extra_padding")
-    chk.add("C08.sizes", "init allocates with the checked sizes and padding", ok, "Graph.init must allocate the buffers from self._buffer_sizes and self._extra_padding", chk.loc(f_gi))
+    chk.add(rid, "init allocates with the checked sizes and padding", ok, "Graph.init must allocate the buffers from self._buffer_sizes and self._extra_padding", chk.loc(f_gi))
     f_ob = model.func("base.Timings.get_output_buffer")
     chk.used(f_ob.qualname)
     ev = SymEval(model)
@@ -271,10 +277,10 @@ def run(chk: Check, model):
                 sterm = next(iter(ss))
                 want = T.mk_ite(T.lt(T.ZERO, T.mk_call("len", [sterm])), T.add(T.mk_call("max", [sterm]), S("extra_padding")), T.mk_max([T.ONE, S("extra_padding")]))
             ok = ok and want is not None and count == want
-    chk.add("C08.sizes", "allocated size and default content", bool(ok), "each buffer must hold (max(sizes) + extra_padding, or max(1, extra_padding)) copies of the producer's init_output",
+    chk.add(rid, "allocated size and default content", bool(ok), "each buffer must hold (max(sizes) + extra_padding, or max(1, extra_padding)) copies of the producer's init_output",
             chk.loc(f_ob))
     pos = [e for e in r.events if e.kind == "assert" and e.term[0] in ("lt0", "le0")]
-    chk.add("C08.sizes", "allocated size asserted positive", len(pos) >= 1, "no assertion that the allocated buffer size is positive", chk.loc(f_ob))
+    chk.add(rid, "allocated size asserted positive", len(pos) >= 1, "no assertion that the allocated buffer size is positive", chk.loc(f_ob))
     # default windows are built from the same init_output
     f_ii = model.func("node.BaseNode.init_inputs")
     ev = SymEval(model)
@@ -282,7 +288,8 @@ def run(chk: Check, model):
     fo = [e for e in r.events if e.kind == "call" and e.name == "rex.base.InputState.from_outputs"]
     ok = len(fo) == 1 and len(fo[0].args) >= 4 and fo[0].args[3][0] == "comp" and T.call_name(fo[0].args[3][2]).endswith(".output_node.init_output") \
         and fo[0].args[3][3][0][1] == T.mk_call("range", [T.mk_attr(_conn_of(fo[0].args[3][2]), "window")])
-    chk.add("C08.sizes", "default windows hold the producer's init_output", bool(ok), "init_inputs must fill each window with `window` copies of the producer's init_output", chk.loc(f_ii))
+    chk.add(rid, "default windows hold the producer's init_output", bool(ok), "init_inputs must fill each window with `window` copies of the producer's init_output", chk.loc(f_ii))
+
 
 
 def _conn_of(call_term):
